@@ -13,3 +13,10 @@ package overlaydb
 //@ func (*OverlayDB).Get
 //@   trusted   -- memdb lookup, then the persisted store: reads only (sets the sticky error field on failure)
 //@   modifies self.dbErr
+
+//@ func (*MemDB).ForEach
+//@   trusted   -- visits every entry in key order and calls f on it (C09); what f writes is the caller's business:
+//@   modifies Block   -- the only caller under contract (CacheDB.Commit) passes a closure that writes the backend
+//@ func (*MemDB).Reset
+//@   trusted   -- empties the table (C09)
+//@   modifies nothing
